@@ -258,6 +258,22 @@ def render_nested_eval(pkg, chain, with_eval, via):
         call = f"h{i + 1}()" if chain[i] == "plain" else f"dds.keep('/ne/k{i}', h{i + 1})"
         lines += [f"def h{i}():", f"    vlog.rec('h{i}')", f"    return ('h{i}', {call})", "", ""]
     call = "h1()" if chain[0] == "plain" else "dds.keep('/ne/k0', h1)"
+    if via in ("same_name", "static_method"):
+        # same_name: the chain lives in a second module; the root's module defines harmless functions with the SAME names and
+        #            calls its own h1 first, then enters the other module
+        # static_method: the innermost call sits in a static method of an accepted class
+        if via == "static_method":
+            i = lines.index(f"def h{d}():")
+            lines[i + 2] = f"    return ('h{d}', Holder.run())"
+            lines[i:i] = ["class Holder(object):", "    @staticmethod", "    def run():", "        vlog.rec('Holder.run')", f"        return {inner}", "", ""]
+            lines += ["def root():", "    vlog.rec('root')", f"    return ('root', {call})", ""]
+            return {f"{pkg}/__init__.py": "", f"{pkg}/m0.py": "\n".join(lines)}
+        m1 = lines + ["def entry():", "    vlog.rec('entry')", f"    return ('entry', {call})", ""]
+        m0 = [VLOG_IMPORT, f"from {pkg} import m1", ""]
+        for i in range(1, d + 1):
+            m0 += [f"def h{i}():", f"    vlog.rec('m0.h{i}')", f"    return ('m0.h{i}',)", "", ""]
+        m0 += ["def root():", "    vlog.rec('root')", "    first = h1()", "    return ('root', first, m1.entry())", ""]
+        return {f"{pkg}/__init__.py": "", f"{pkg}/m0.py": "\n".join(m0), f"{pkg}/m1.py": "\n".join(m1)}
     lines += ["def root():", "    vlog.rec('root')", f"    return ('root', {call})", ""]
     return {f"{pkg}/__init__.py": "", f"{pkg}/m0.py": "\n".join(lines)}
 
@@ -267,7 +283,7 @@ def family_c(tier):
     for d in (1, 2, 3, 4):
         for chain in itertools.product(["plain", "keep"], repeat=d):
             for with_eval in (True, False):
-                for via in (["attr", "alias", "local_import", "shadow"] if with_eval else ["attr", "local_import"]):
+                for via in (["attr", "alias", "local_import", "shadow", "same_name", "static_method"] if with_eval else ["attr", "local_import", "same_name", "static_method"]):
                     cases.append({"fam": "C", "chain": list(chain), "with_eval": with_eval, "via": via})
     return cases
 
